@@ -113,6 +113,7 @@ def declare(rep):
     rep.rule("C14.axis-moments", "every term accumulated into the second moments that give the division axis (cell::get_cell_longest_axis) has weight 0, and the mean subtracted is the mean of the same points", floor=6)
     rep.rule("C14.displacements", "integrator displacements have weight 0; points written by pos_.reset have weight 1", floor=1)
     rep.rule("C14.new-nodes", "the node added by split_edge / merge_edge has weight 1", floor=2)
+    rep.rule("C14.difference-form", "in the contact routines every norm, dot and cross product is taken of translation-invariant vectors (differences of positions, normals): a distance written as |a|^2 - 2a.b + |b|^2 is invariant only through cancellation of terms that grow with the distance to the origin, so its rounding error - and with it the coupling decisions - depends on where the tissue lies", floor=3)
     rep.rule("C14.decisions", "both operands of every position-dependent comparison in the refiner, contact phases, box test and divider have equal weights", floor=10)
     rep.rule("C14.extrema-sentinels", "running minima start from a value no coordinate exceeds (+infinity / max()), running maxima from one no coordinate is below (-infinity / lowest()): numeric_limits::min() is the smallest POSITIVE double, a tissue with negative coordinates would never lower it", floor=6)
     rep.rule("C14.grid", "grid quantisation numerators have weight 0; face boxes and global extrema have weight 1 on their own axis", floor=12)
@@ -190,6 +191,7 @@ def run(rep, prog, tier):
     displacements(rep, prog, cm)
     new_nodes(rep, prog)
     decisions(rep, prog, cm)
+    difference_form(rep, prog, cm)
     grid(rep, prog, cm)
     extrema_sentinels(rep, prog)
 
@@ -312,6 +314,38 @@ def new_nodes(rep, prog):
 
 DECISION_FNS = ["local_mesh_refiner::refine_mesh", "local_mesh_refiner::get_triangle_score", "contact_model_abstract::aabb_intersection_check",
                 "cell_divider::face_side_wrt_plane", "cell_divider::find_edge_plane_intersection"]
+
+
+def difference_form(rep, prog, cm):
+    qns = [c07.ENTRY[cm], c07.ENTRY[cm].split("::")[0] + ("::resolve_contacts" if cm == 0 else "::resolve_all_contacts"), "contact_model_abstract::compute_node_triangle_distance"]
+    for qn in qns:
+        fn0 = prog.fn(qn, required=False)
+        if fn0 is None:
+            continue
+        for fn in prog.with_new_helpers(fn0):
+            points = {p["name"] for p in fn.get("params", []) if p["t"].replace("const ", "").replace(" &", "") == "vec3" and (p["name"] in ("p", "a", "b", "c", "node_pos", "n1_pos", "n2_pos") or p["name"].endswith("_pos"))}
+            for n in walk(fn["body"]):
+                if n.get("k") != "CXXMemberCallExpr" or n.get("callee") not in ("vec3::squared_norm", "vec3::norm", "vec3::dot", "vec3::cross"):
+                    continue
+                operands = [call_obj(n)] + (list(call_args(n)) if n["callee"] in ("vec3::dot", "vec3::cross") else [])
+                try:
+                    ev = S.SymEval(prog, fn, lazy_scalars=True)
+                    W = Weights(ev, extra_pos=points)
+                    bad = None
+                    for o in operands:
+                        r = ev.ev(o)
+                        comps = vec(ev, r)
+                        ok, why = check_vector(W, comps, 0)
+                        if not ok:
+                            bad = (o, why)
+                            break
+                except (S.Decline, KeyError, AttributeError, TypeError):
+                    continue
+                if bad is None:
+                    rep.ok("C14.difference-form", prog, fn, n, "%s: operands are translation invariant vectors" % short(n, 60))
+                else:
+                    rep.violation("C14.difference-form", prog, fn, n, "%s of an absolute position" % n["callee"].split("::")[1],
+                                  "%s: the operand %s is not invariant under a common translation (%s): the value is formed from absolute coordinates and becomes invariant only by cancellation against other such terms; far from the origin the cancellation loses the digits the contact decision depends on" % (short(n, 80), short(bad[0], 40), bad[1]))
 
 
 def decisions(rep, prog, cm):
